@@ -222,12 +222,13 @@ def zoom(array, zoom, out=None, order=3, mode='constant', cval=0.0, prefilter=Tr
     elif not out.flags.c_contiguous:
         raise ValueError('mahotas.interpolate.zoom: `out` must be C-contiguous')
     zoom_div = np.array(out.shape, float) - 1
-    zoom = (np.array(array.shape) - 1) / zoom_div
+    with np.errstate(divide='ignore', invalid='ignore'):
+        zoom = (np.array(array.shape) - 1) / zoom_div
     zoom = np.ascontiguousarray(zoom)
 
     # Zooming to infinity is unpredictable, so just choose
-    # zoom factor 1 instead
-    zoom[np.isinf(zoom)] = 1
+    # zoom factor 1 instead (also for an axis of length 1 kept at length 1: 0/0)
+    zoom[~np.isfinite(zoom)] = 1
 
     _check_mode(mode, cval, 'interpolation.zoom')
 
